@@ -1,24 +1,27 @@
-/* time-to-tick conversion (co_tmr.c COTmrGetTicks / COTmrGetMinTime) - property C07, last clause: "time-to-tick
- * conversion is monotonic and exact whenever the time is a whole number of ticks".  EXPLICIT form, loop-free, full
- * domain: any frequency (32 bit), any time (16 bit), both units the stack uses (1 ms = 1000, 100 us = 10000).
- * Specification in 64-bit arithmetic: P = time * freq; the time is a whole number of ticks iff P % unit == 0. */
+/* time-to-tick conversion (co_tmr.c COTmrGetTicks) - property C07, last clause: "time-to-tick conversion is monotonic and
+ * exact whenever the time is a whole number of ticks".  EXPLICIT form, BOUNDED in the frequency: a symbolic 32-bit frequency
+ * makes cbmc's propositional reduction of the divisions / multiplications run for hours (standalone experiment: > 5 min in
+ * "Running propositional reduction" for the exactness clause alone, MiniSat and CaDiCaL), so the clause is decided for a
+ * LIST of (frequency, unit) pairs (-DVW_FREQ, -DVW_UNIT, one group each) - frequencies dividing the unit, multiples of it,
+ * and neither (the case that was wrong on the pinned tree) - each with EVERY pair of 16-bit times t1 <= t2.  With a constant frequency the conversion is
+ * linear in the time and SAT decides it at once.  Specification in 32-bit arithmetic: m = freq / unit, r = freq % unit,
+ * exact count = time*m + time*r/unit (time*r < 2^30), whole number of ticks iff (time*r) % unit == 0. */
 #include "vw_defs.h"
 #include "vw_node.h"
-uint16_t H_T1, H_T2; _Bool H_U;
+uint16_t H_T1, H_T2;
 void harness(void)
 {
     vw_node_init();
-    uint32_t unit = H_U ? 10000u : 1000u, freq = V_NODE.Tmr.Freq;
     __CPROVER_assume(H_T1 <= H_T2);
+    uint32_t unit = VW_UNIT, freq = VW_FREQ, m = freq / unit, r = freq % unit;
+    V_NODE.Tmr.Freq = freq;
     uint32_t k1 = COTmrGetTicks(&V_NODE.Tmr, H_T1, unit), k2 = COTmrGetTicks(&V_NODE.Tmr, H_T2, unit);
-    uint64_t p2 = (uint64_t)H_T2 * freq;
-    _Bool fits = p2 / unit <= 0xFFFFFFFFull;                 /* the tick count of the longer time is representable */
-    if (freq == 0) { __CPROVER_assert(k1 == 0 && k2 == 0, "no timer frequency: 0 ticks"); }
-    __CPROVER_assert(fits ==> k1 <= k2, "tick conversion is monotonic");
-    __CPROVER_assert((fits && p2 % unit == 0) ==> k2 == (uint32_t)(p2 / unit), "tick conversion is exact whenever the time is a whole number of ticks");
-    uint16_t m = COTmrGetMinTime(&V_NODE.Tmr, unit);
-    __CPROVER_assert(freq == 0 ? m == 0 : (m >= 1 && (uint64_t)m * freq >= unit), "the smallest resolvable time is at least one tick long");
-    if (freq != 0 && freq < unit && unit % freq != 0 && p2 % unit == 0 && H_T2 != 0) { __CPROVER_assert(0, "REACH:a"); }
-    if (freq > unit && freq % unit != 0 && p2 % unit == 0 && H_T2 != 0) { __CPROVER_assert(0, "REACH:b"); }
+    uint32_t frac = (uint32_t)H_T2 * r;
+    __CPROVER_assert(k1 <= k2, "tick conversion is monotonic");
+    __CPROVER_assert(frac % unit == 0 ==> k2 == (uint32_t)H_T2 * m + frac / unit, "tick conversion is exact whenever the time is a whole number of ticks");
+    V_NODE.Tmr.Freq = 0;
+    __CPROVER_assert(COTmrGetTicks(&V_NODE.Tmr, H_T2, unit) == 0, "no timer frequency: 0 ticks");
+    if (frac % unit == 0 && H_T2 > 100) { __CPROVER_assert(0, "REACH:a"); }
+    if (H_T1 == H_T2) { __CPROVER_assert(0, "REACH:b"); }
     __CPROVER_assert(0, "REACH:post");
 }
